@@ -90,7 +90,19 @@ class P(Prop):
 
     def search(self, n):
         for i in range(n):
-            self.oracle(self.gen_case())
+            c = self.gen_case()
+            self.oracle(c)
+            if i % 4 == 0:
+                # the same Circuit object again after a new loop was added in place (no stale per-object state)
+                gates = [g for g in c.graph.nodes if c.type(g) in gen.MULTI]
+                if len(gates) >= 1:
+                    try:
+                        h1 = c.add("zz_h1", "nor", fanin=[self.rng.choice(gates)], uid=True, output=True)
+                        h2 = c.add("zz_h2", "nor", fanin=[h1], uid=True)
+                        c.connect(h2, h1)
+                    except Exception:  # noqa: BLE001
+                        continue
+                    self.oracle(c)
             if self.too_many():
                 break
 
